@@ -5,6 +5,9 @@
 // Generated file: the template is /verif/contracts/V-DSER.rs.tpl.
 #![allow(unused_imports, unused_variables, dead_code)]
 use vstd::prelude::*;
+// the imports of the source files the items come from (path spelling is not semantics)
+use core::marker::PhantomData;
+use core::ops::{Bound, ControlFlow};
 verus! {
 
 global size_of usize == 8;
@@ -125,6 +128,7 @@ pub proof fn lemma_err_parts3(s0: Seq<u8>, e1: Seq<u8>, e2: Seq<u8>, e3: Seq<u8>
 //@|            proof { axiom_ne_bytes(); }
 //@end
 
+//@requires E1::SerializeInner
 impl RoundTrip for E1 {
     proof fn lemma_rt(&self, pos: nat, rest: Seq<u8>) {
         axiom_ne_bytes();
@@ -149,6 +153,7 @@ impl RoundTrip for E1 {
         }
     }
 }
+//@endrequires
 
 //@item @derive props=C01,C05,C13 name=DT::SerializeInner <<impl epserde::ser::SerializeInner for DT<> where>>
 //@  replace <<epserde::ser::helpers::check_mismatch::<Self>();>> <<>>
@@ -165,6 +170,7 @@ impl RoundTrip for E1 {
 //@  ret r
 //@end
 
+//@requires DT::SerializeInner
 impl RoundTrip for DT {
     proof fn lemma_rt(&self, pos: nat, rest: Seq<u8>) {
         let e1 = self.0.enc(pos);
@@ -176,6 +182,7 @@ impl RoundTrip for DT {
         self.1.lemma_rt(pos + e1.len(), rest);
     }
 }
+//@endrequires
 
 //@item @derive props=C01,C05,C13,C15 name=GE::SerializeInner <<impl<V> epserde::ser::SerializeInner for GE<V> where>>
 //@  replace <<epserde::ser::helpers::check_mismatch::<Self>();>> <<>>
@@ -197,6 +204,7 @@ impl RoundTrip for DT {
 //@|            proof { axiom_ne_bytes(); }
 //@end
 
+//@requires GE::SerializeInner
 impl<V: RoundTrip> RoundTrip for GE<V> {
     proof fn lemma_rt(&self, pos: nat, rest: Seq<u8>) {
         axiom_ne_bytes();
@@ -224,6 +232,7 @@ impl<V: RoundTrip> RoundTrip for GE<V> {
         }
     }
 }
+//@endrequires
 
 //@item @derive props=C01,C05,C13 name=G2::SerializeInner <<impl<T, U> epserde::ser::SerializeInner for G2<T, U> where>>
 //@  replace <<epserde::ser::helpers::check_mismatch::<Self>();>> <<>>
@@ -240,6 +249,7 @@ impl<V: RoundTrip> RoundTrip for GE<V> {
 //@  ret r
 //@end
 
+//@requires G2::SerializeInner
 impl<T: RoundTrip, U: RoundTrip> RoundTrip for G2<T, U> {
     proof fn lemma_rt(&self, pos: nat, rest: Seq<u8>) {
         let e1 = self.a.enc(pos);
@@ -254,6 +264,7 @@ impl<T: RoundTrip, U: RoundTrip> RoundTrip for G2<T, U> {
         self.c.lemma_rt(pos + e1.len() + e2.len(), rest);
     }
 }
+//@endrequires
 
 } // verus!
 fn main() {}
